@@ -1,4 +1,4 @@
-"""./check <id> [--tier quick|thorough] [--seed N] [--replay path] [--selftest]"""
+"""./check <id> [--tier quick|thorough] [--seed N] [--replay path]"""
 import argparse
 import importlib
 import os
@@ -16,7 +16,6 @@ def main():
     ap.add_argument("--tier", default=os.environ.get("VERIF_TIER", "quick"), choices=["quick", "thorough"])
     ap.add_argument("--seed", type=int, default=int(os.environ.get("VERIF_SEED", "0") or 0))
     ap.add_argument("--replay")
-    ap.add_argument("--selftest", action="store_true")
     a = ap.parse_args()
     os.environ.setdefault("PYTHONHASHSEED", "0")
     os.environ["PDB2PQR_VERIF_TRACE"] = "1"
@@ -27,10 +26,21 @@ def main():
         return 2
     ctx = core.Ctx(a.pid, a.tier, a.seed, getattr(mod, "LEVEL", "model_checking"))
     try:
-        if a.replay:
+        if a.replay and hasattr(mod, "replay"):
             mod.replay(ctx, a.replay)
-        elif a.selftest:
-            return mod.selftest(ctx)
+        elif a.replay:
+            # generic replay: re-run the check with the tier and seed recorded in the replay file (inputs are
+            # deterministic functions of tier, seed and case) and report only the violation with the recorded key
+            import json
+            rp = json.load(open(a.replay))
+            ctx = core.Ctx(a.pid, rp.get("tier", a.tier), int(rp.get("seed", a.seed)), getattr(mod, "LEVEL", "model_checking"))
+            os.environ["VERIF_EVIDENCE_DIR"] = os.path.join(core.VERIF, ".work", "replay-evidence")
+            os.makedirs(os.environ["VERIF_EVIDENCE_DIR"], exist_ok=True)
+            os.environ["VERIF_MAXVIOL"] = "100000"
+            mod.run(ctx)
+            ctx.violations = [v for v in ctx.violations if v["key"] == rp["key"]]
+            if not ctx.violations:
+                print(f"replay {a.replay}: key {rp['key']} not reproduced on the current tree")
         else:
             mod.run(ctx)
         return ctx.finish()
